@@ -199,6 +199,98 @@ def judge_equal_numbers(case):
     return core.result("normalised", digest=core.digest_of(case), viol=v)
 
 
+def judge_multi_point(case):
+    """ideal curves over several feed points: point i of the curve must be the one-point curve at composition i (fluxes BIT, recovered
+    permeances the membrane's); the number of points (2 included) must not matter."""
+    mix = U.get_mixture(case["mixture"])
+    t, P = case["T"], case["P"]
+    mode = tuple(case["mode"]) if case["mode"] != "vac" else "vac"
+    kw = U.permeate_kwargs(mode, t)
+    mem = U.make_membrane(mix, P[0], P[1], t_ref=t, ea1=25000.0, ea2=60000.0, units=case["unit"])
+    comps = [U.composition(x, case["basis"], mix) for x in case["xs"]]
+    pv = solver.ObservedPV(membrane=mem, mixture=mix).observe(budget=300000)
+    try:
+        st, curve = core.call(pv.ideal_diffusion_curve, feed_temperature=t, compositions=comps, precision=1e-10, **kw)
+        singles = [core.call(pv.ideal_diffusion_curve, feed_temperature=t, compositions=[U.composition(x, case["basis"], mix)], precision=1e-10, **kw) for x in case["xs"]]
+    except (solver.Lasso, solver.Budget):
+        return core.result("not-judged:no-convergence", nontrivial=False)
+    if st != "ok" or any(s_[0] != "ok" for s_ in singles):
+        if st != "ok" and all(s_[0] == "ok" for s_ in singles):
+            return core.result("raised", viol=[core.viol("C09/multi_point_curve_raises", "every one-point curve returns but the %d-point curve raises %r" % (len(comps), curve))])
+        return core.result("not-judged:raised", nontrivial=False)
+    v = []
+    if len(curve.partial_fluxes) != len(comps) or len(curve.permeances) != len(comps):
+        v.append(core.viol("C09/multi_point_curve", "%d feed points, %d flux pairs, %d permeance pairs" % (len(comps), len(curve.partial_fluxes), len(curve.permeances))))
+    else:
+        for i, (st1, one) in enumerate(singles):
+            a = tuple(float(z) for z in curve.partial_fluxes[i])
+            b = tuple(float(z) for z in one.partial_fluxes[0])
+            qa = tuple(float(z.value) for z in curve.permeances[i])
+            qb = tuple(float(z.value) for z in one.permeances[0])
+            if len(a) != 2 or [core.fhex(z) for z in a] != [core.fhex(z) for z in b] or [core.fhex(z) for z in qa] != [core.fhex(z) for z in qb]:
+                v.append(core.viol("C09/multi_point_curve", "point %d of a %d-point ideal curve: fluxes %r permeances %r; the one-point curve at that composition: fluxes %r permeances %r" % (
+                    i, len(comps), a, qa, b, qb)))
+                break
+            # re-inverting the reported fluxes through the curve class (vacuum / p = 0: the inverse is exact)
+            if mode == "vac" or mode == ("p", 0.0):
+                if not all(core.close(qa[j], P[j], TOL) for j in (0, 1)):
+                    v.append(core.viol("C09/inversion/multi_point", "point %d: supplied permeances %r, curve reports %r" % (i, tuple(P), qa)))
+                    break
+        if not v:
+            st2, c2 = core.call(U.DiffusionCurve, mixture=mix, membrane_name="M", feed_temperature=t, feed_compositions=comps,
+                                partial_fluxes=[tuple(float(z) for z in f) for f in curve.partial_fluxes], **kw)
+            if st2 == "ok":
+                for i in range(len(comps)):
+                    if [core.fhex(float(z.value)) for z in c2.permeances[i]] != [core.fhex(float(z.value)) for z in curve.permeances[i]]:
+                        v.append(core.viol("C09/reinversion", "point %d of %d: a curve built from the reported fluxes exposes permeances %r, the ideal curve %r" % (
+                            i, len(comps), tuple(float(z.value) for z in c2.permeances[i]), tuple(float(z.value) for z in curve.permeances[i]))))
+                        break
+            else:
+                v.append(core.viol("C09/curve_from_fluxes_raises", "%r" % (c2,)))
+    return core.result("multi-point", digest=core.digest_of([core.fhex(float(z)) for f in curve.partial_fluxes for z in f]), viol=v)
+
+
+def judge_shared_objects(case):
+    """the caller owns its Permeance objects: ONE object may serve both components of a pair, and the same objects may be handed to a
+    second curve of another mixture; every curve exposes exact conversions and the caller's objects stay as they were."""
+    v = []
+    num, unit, t = case["number"], case["unit"], case["T"]
+    shared = U.Permeance(value=num, units=unit)
+    other = U.Permeance(value=num * 1.5, units=unit)
+    for mname in case["mixtures"]:
+        mix = U.get_mixture(mname)
+        comps = (mix.first_component, mix.second_component)
+        fcomp = [U.Composition(p=x, type="weight") for x in case["xs"]]
+        pairs = [(shared, shared), (other, shared), (shared, other)][:len(fcomp)]
+        st, c = core.call(U.DiffusionCurve, mixture=mix, membrane_name="M", feed_temperature=t, feed_compositions=fcomp, permeances=list(pairs))
+        if st != "ok":
+            v.append(core.viol("C09/curve_from_permeances_raises", "%r" % (c,)))
+            continue
+        for i in range(len(fcomp)):
+            pf = U.pyvaporation.get_partial_pressures(t, mix, fcomp[i])
+            for j in (0, 1):
+                n_ = num if pairs[i][j] is shared else num * 1.5
+                f_si = Fraction(1) if unit == "SI" else (Fraction("3.35e-10") if unit == "GPU" else 1 / (Fraction(comps[j].molecular_weight) * 3600))
+                want = float(Fraction(n_) * f_si * Fraction(comps[j].molecular_weight) * 3600)
+                q = c.permeances[i][j]
+                if q.units != KG or not core.close(float(q.value), want, 1e-11):
+                    v.append(core.viol("C09/unit_normalisation", "%s (caller re-uses its Permeance objects): %r %s for component %d at point %d is exposed as %r %s, exact %r" % (
+                        mname, n_, unit, j + 1, i, q.value, q.units, want)))
+                    break
+                if not core.close(float(c.partial_fluxes[i][j]), want * float(pf[j]), 1e-11):
+                    v.append(core.viol("C09/fluxes_from_permeances", "%s point %d component %d: flux %r, permeance x feed partial pressure = %r" % (
+                        mname, i, j + 1, c.partial_fluxes[i][j], want * float(pf[j]))))
+                    break
+            if v:
+                break
+        if (shared.value, shared.units, other.value, other.units) != (num, unit, num * 1.5, unit):
+            v.append(core.viol("C09/caller_permeance_changed", "after building a curve for %s the caller's Permeance objects read %r %s / %r %s (were %r / %r %s)" % (
+                mname, shared.value, shared.units, other.value, other.units, num, num * 1.5, unit)))
+        if v:
+            break
+    return core.result("normalised", digest=core.digest_of(case), viol=v)
+
+
 def space(tier, seed):
     q = tier == "quick"
     alph = {
@@ -235,6 +327,16 @@ def main(tier, seed):
     eq = core.ListSpace("equal_numbers_in_unit", [{"mixtures": ["H2O_EtOH", "MeOH_MTBE", "H2O_iPOH", "S2"], "number": n_, "unit": u_, "T": 333.15, "xs": [0.2, 0.7]}
                                                  for n_ in (6.29e-7, 2.5e-5, 3.0e2) for u_ in (KG, "SI", "GPU")])
     core.run_space(rep, eq, judge_equal_numbers, chunk=3)
+    sh = core.ListSpace("shared_permeance_objects", [{"mixtures": ms_, "number": n_, "unit": u_, "T": 333.15, "xs": [0.2, 0.7, 0.45]}
+                                                     for n_ in (6.29e-7, 3.0e2) for u_ in (KG, "SI", "GPU")
+                                                     for ms_ in (["H2O_EtOH", "MeOH_MTBE", "S2"], ["S2", "H2O_iPOH", "H2O_EtOH"])])
+    core.run_space(rep, sh, judge_shared_objects, chunk=2)
+    mp = core.Space("multi_point_ideal_curves", {"mixture": ["H2O_EtOH", "S2"] if q else ["H2O_EtOH", "MeOH_DMC", "S2", "S5", "S6"],
+                                                 "mode": ["vac", ("T", -40.0), ("p", 0.0), ("p", 0.5)], "P": [(1e-2, 1e-4), (1e-3, 2e-3)],
+                                                 "xs": [core.lat(l_, seed) for l_ in ([0.3], [0.2, 0.7], [0.7, 0.2], [0.1, 0.5, 0.9], [0.15, 0.35, 0.6, 0.8], [0.1, 0.3, 0.5, 0.7, 0.9])],
+                                                 "basis": ["weight", "molar"], "T": core.lat([333.15], seed), "unit": [KG, "SI"] if q else [KG, "SI", "GPU"]},
+                    lambda c: U.get_mixture(c["mixture"]).nrtl_params is not None)
+    core.run_space(rep, mp, judge_multi_point)
     three = core.Space("mixed_unit_curves_3pt", {"mixture": ["H2O_EtOH"], "T": [333.15], "xs": [[0.1, 0.5, 0.9]],
                                                  "units": [list(u) for u in itertools.product([KG, "SI", "GPU"], repeat=6)] if not q else
                                                           [[a, a, b, b, c, c] for a in (KG, "SI", "GPU") for b in (KG, "SI", "GPU") for c in (KG, "SI", "GPU")],
